@@ -3,7 +3,10 @@ package rules
 
 import (
 	"fmt"
+	"go/constant"
+	"go/token"
 	"go/types"
+	"os"
 	"sort"
 	"strings"
 
@@ -162,7 +165,11 @@ func returnedErrors(fn *ssa.Function) map[*ssa.Return]ssa.Value {
 	if idx < 0 {
 		return out
 	}
+	live := core.LiveBlocks(fn)
 	for _, ret := range core.Returns(fn) {
+		if ret.Block().Index < len(live) && !live[ret.Block().Index] {
+			continue // no feasible path reaches this return (e.g. `err = nil; if err != nil { return err }`)
+		}
 		if idx < len(ret.Results) {
 			out[ret] = ret.Results[idx]
 		}
@@ -341,4 +348,191 @@ func vpos(r *core.Run, v ssa.Value) string {
 		return r.P.Pos(v.Parent().Pos())
 	}
 	return "?"
+}
+
+// byteCompare recognises a comparison of two byte slices in the forms the code
+// base and its refactorings use — bytes.Equal(a, b), bytes.Compare(a, b) ==/!= 0,
+// string(a) ==/!= string(b) — for a condition value taken with the given truth.
+// It returns the operands and whether the condition then states equality.
+func byteCompare(r *core.Run, cond ssa.Value, truth bool) (a, b ssa.Value, equal bool, ok bool) {
+	cd := core.CondOf(cond)
+	if cd.Neg {
+		truth = !truth
+	}
+	if cd.Op == 0 || cd.Op == token.ILLEGAL {
+		if c, isCall := cd.X.(*ssa.Call); isCall && r.P.CalleeName(c) == "bytes.Equal" {
+			return c.Call.Args[0], c.Call.Args[1], truth, true
+		}
+		return nil, nil, false, false
+	}
+	if cd.Op != token.EQL && cd.Op != token.NEQ {
+		return nil, nil, false, false
+	}
+	eq := truth == (cd.Op == token.EQL)
+	for _, pair := range [][2]ssa.Value{{cd.X, cd.Y}, {cd.Y, cd.X}} {
+		if c, isCall := pair[0].(*ssa.Call); isCall && r.P.CalleeName(c) == "bytes.Compare" {
+			if k, isK := core.ConstInt(pair[1]); isK && k == 0 {
+				return c.Call.Args[0], c.Call.Args[1], eq, true
+			}
+		}
+	}
+	// string(a) == string(b)
+	cx, okx := cd.X.(*ssa.Convert)
+	cy, oky := cd.Y.(*ssa.Convert)
+	if okx && oky {
+		return cx.X, cy.X, eq, true
+	}
+	return nil, nil, false, false
+}
+
+// expCond is a condition known to hold (with the given truth value) whenever an
+// instruction executes: a guard, or — for a guard on a boolean merged from a
+// short-circuit expression or a flag variable (phi[const…, V]) — the operand V
+// the required outcome must have come from. merged marks the phi itself.
+type expCond struct {
+	cond   ssa.Value
+	truth  bool
+	merged bool
+}
+
+func expandedConds(in ssa.Instruction) []expCond {
+	var out []expCond
+	for _, g := range core.GuardsOf(in) {
+		out = append(out, expandGuard(g.If, g.Branch)...)
+	}
+	return out
+}
+
+// expandGuard gives the conditions that taking one branch edge establishes.
+func expandGuard(iff *ssa.If, branch bool) []expCond {
+	var out []expCond
+	var add func(cond ssa.Value, truth bool, d int)
+	add = func(cond ssa.Value, truth bool, d int) {
+		cd := core.CondOf(cond)
+		t := truth != cd.Neg
+		if ph, ok := cd.X.(*ssa.Phi); ok && (cd.Op == 0 || cd.Op == token.ILLEGAL) && d < 4 {
+			out = append(out, expCond{cond, truth, true})
+			var cand ssa.Value
+			n := 0
+			for _, e := range ph.Edges {
+				if k, isK := e.(*ssa.Const); isK && k.Value != nil && k.Value.Kind() == constant.Bool {
+					if constant.BoolVal(k.Value) == t {
+						n = 2
+					}
+					continue
+				}
+				n++
+				cand = e
+			}
+			if n == 1 && cand != nil {
+				add(cand, t, d+1)
+			}
+			return
+		}
+		out = append(out, expCond{cond, truth, false})
+	}
+	add(iff.Cond, branch, 0)
+	return out
+}
+
+// lenZeroFact reports whether taking guard g establishes len(x) == 0 (zero=true)
+// or len(x) > 0 (zero=false) for the len call it tests, in any of the usual
+// spellings (== 0, != 0, > 0, <= 0, < 1, >= 1, either polarity).
+func lenZeroFact(g core.Guard) (lenCall ssa.Value, zero bool, ok bool) {
+	cd := core.CondOf(g.If.Cond)
+	if !isLenCall(cd.X) {
+		return nil, false, false
+	}
+	k, isK := core.ConstInt(cd.Y)
+	if !isK {
+		return nil, false, false
+	}
+	truth := g.Branch != cd.Neg
+	var zeroWhenTrue, known bool
+	switch {
+	case cd.Op == token.EQL && k == 0, cd.Op == token.LEQ && k == 0, cd.Op == token.LSS && k == 1:
+		zeroWhenTrue, known = true, true
+	case cd.Op == token.NEQ && k == 0, cd.Op == token.GTR && k == 0, cd.Op == token.GEQ && k == 1:
+		zeroWhenTrue, known = false, true
+	}
+	if !known {
+		return nil, false, false
+	}
+	return cd.X, zeroWhenTrue == truth, true
+}
+
+// successOnlyAfter reports whether fn can report success (a nil error) only
+// after each group of calls had one member whose error was checked: for every
+// return whose error is definitely nil, and for every return that hands back
+// the error of one of the calls itself (`return x, err` right after `err =
+// save()` — success exactly when that call succeeded), every OTHER group must
+// have a member that was checked before that return.
+func successOnlyAfter(r *core.Run, fn *ssa.Function, groups ...[]*ssa.Call) bool {
+	for ret, ev := range returnedErrors(fn) {
+		ev = core.BlockLocalLoad(ev)
+		nilRet := definitelyNil(r, ev)
+		var own *ssa.Call
+		if !nilRet {
+			for _, g := range groups {
+				for _, c := range g {
+					if e := core.ErrorResult(c); e != nil && (e == ev || carries(ev, e)) && core.Reaches(c, ret) {
+						own = c
+					}
+				}
+			}
+			if own == nil {
+				continue // an error return of another kind
+			}
+			// handed back on its failure arm only (`if err != nil { return err }`): an error return
+			if e := core.ErrorResult(own); e != nil && core.NilnessAt(e, ret.Block()) == core.NonNil {
+				continue
+			}
+			onlyFailure := false
+			for _, g := range core.GuardsOf(ret) {
+				if isNil, known := core.ErrNilFact(g, core.ErrorResult(own)); known && !isNil {
+					onlyFailure = true
+				}
+			}
+			if onlyFailure {
+				continue
+			}
+		}
+		for _, g := range groups {
+			ok := false
+			for _, c := range g {
+				if c == own || core.CheckedBefore(c, ret) {
+					ok = true
+				}
+			}
+			if !ok {
+				if os.Getenv("GFS3_DEBUG_ACK") != "" {
+					fmt.Fprintf(os.Stderr, "ACK fail in %s: return at %s ev=%v nil=%v own=%v group0=%v\n", fn.Name(), r.P.InstrPos(ret), ev, nilRet, own, g[0])
+				}
+				return false
+			}
+		}
+	}
+	return true
+}
+
+// carries: v is e, possibly through phis all of whose other edges are nil constants or e.
+func carries(v, e ssa.Value) bool {
+	if v == e {
+		return true
+	}
+	if ph, ok := v.(*ssa.Phi); ok {
+		any := false
+		for _, x := range ph.Edges {
+			if x == e {
+				any = true
+				continue
+			}
+			if core.IsNilConst(x) {
+				continue
+			}
+			return false
+		}
+		return any
+	}
+	return false
 }
